@@ -179,6 +179,14 @@ func c17Exec(t testing.TB, w *vx.W, cs c17Case) {
 	h := c17cliNew(t, strict)
 	defer h.finish()
 	m := &c17Mon{w: w, h: h, strict: strict, cm: map[int]*c17ConnMon{}, feat: map[string]bool{}}
+	applied, points, complete := 0, 0, false
+	defer func() {
+		w.Ctx().AddTransitions(int64(applied))
+		w.Ctx().AddStates(int64(points))
+		if complete {
+			w.Ctx().AddTraces(1)
+		}
+	}()
 	for _, ev := range cs.Ev {
 		m.begin()
 		conns := h.connList()
@@ -254,6 +262,8 @@ func c17Exec(t testing.TB, w *vx.W, cs c17Case) {
 			m.afterRequest()
 		}
 		m.quiescent()
+		applied++
+		points++
 		if w.Failed() {
 			return
 		}
@@ -264,9 +274,11 @@ func c17Exec(t testing.TB, w *vx.W, cs c17Case) {
 	time.Sleep(120 * time.Second)
 	m.observe(h.settle())
 	m.quiescent()
+	points++
 	if w.Failed() {
 		return
 	}
+	complete = true
 	w.Nontrivial()
 	var feats []string
 	feats = append(feats, fmt.Sprintf("conns=%d", len(h.connList())))
